@@ -279,7 +279,7 @@ func (g *gAgent) SetHandler(h stun.Handler) error {
 	return g.a.SetHandler(func(e stun.Event) {
 		kind := evKind(e)
 		id := idIndex(e.TransactionID)
-		g.c.log(map[string]interface{}{"k": "cb", "p": g.c.procName(), "kind": kind, "id": id})
+		g.c.log(map[string]interface{}{"k": "cb", "p": g.c.procName(), "kind": kind, "id": id, "t": g.c.now()})
 		g.c.arrive("cb.enter", map[string]interface{}{"kind": kind, "id": id})
 		h(e)
 		g.c.log(map[string]interface{}{"k": "cbexit", "p": g.c.procName(), "kind": kind, "id": id})
